@@ -155,6 +155,24 @@ func (x *Ctx) wrapperSymmetryOpt(r *core.Result, rs *core.RuleStat, storeBack bo
 			}
 			continue
 		}
+		if len(calls) == 0 {
+			// delegation: the only use of the buffer is to hand it, with the wrapper's own data, to another wrapper
+			// that is itself one of the checked ones
+			if dn := x.delegatesTo(fn, bufParam, bufferWrappers); dn != "" {
+				rs.OK(1)
+				rs.Sample(n + ": hands its data and buffer to " + dn + " (checked as a wrapper itself)")
+				listed := false
+				for _, m := range names {
+					if m == dn {
+						listed = true
+					}
+				}
+				if !listed {
+					x.wrapperSymmetryOpt(r, rs, storeBack, dn)
+				}
+				continue
+			}
+		}
 		if len(calls) != 2 {
 			r.Fail(rs, key, x.W.Pos(fn.Pos()), fmt.Sprintf("expected one machine call per branch (nil / non-nil buffer), found %d", len(calls)))
 			continue
@@ -296,30 +314,88 @@ func isIntSlice(t types.Type) bool {
 
 // singleCallWrapper: the wrapper calls the machine once; the buffer influences only the stack argument (and the store-back).
 func (x *Ctx) singleCallWrapper(fn *ssa.Function, c *ssa.Call, buf *ssa.Parameter, storeBack bool) string {
-	fromBuffer := func(v ssa.Value) bool {
+	// fromBufferOf: v is a load of a field of the buffer value b
+	fromBufferOf := func(v, b ssa.Value) bool {
 		u, ok := v.(*ssa.UnOp)
 		if !ok || u.Op != token.MUL {
 			return false
 		}
 		fa, ok := u.X.(*ssa.FieldAddr)
-		return ok && fa.X == ssa.Value(buf)
+		return ok && fa.X == b
 	}
-	var stackOK func(v ssa.Value, seen map[ssa.Value]bool) bool
-	stackOK = func(v ssa.Value, seen map[ssa.Value]bool) bool {
+	// bufferArg: the parameter of the private helper h that receives the buffer at call c (nil if none or several)
+	bufferArg := func(c *ssa.Call, b ssa.Value) (*ssa.Function, *ssa.Parameter) {
+		h := c.Call.StaticCallee()
+		if h == nil || !x.isPrivateHelper(h) || h.Blocks == nil || len(h.Params) != len(c.Call.Args) {
+			return nil, nil
+		}
+		var bp *ssa.Parameter
+		for i, a := range c.Call.Args {
+			if a == b {
+				if bp != nil {
+					return nil, nil
+				}
+				bp = h.Params[i]
+			}
+		}
+		return h, bp
+	}
+	var stackOKOf func(v, b ssa.Value, seen map[ssa.Value]bool, depth int) bool
+	stackOKOf = func(v, b ssa.Value, seen map[ssa.Value]bool, depth int) bool {
 		if seen[v] {
 			return true
 		}
 		seen[v] = true
-		if isNilConst(v) || fromBuffer(v) {
+		if isNilConst(v) || fromBufferOf(v, b) {
 			return true
 		}
 		if phi, ok := v.(*ssa.Phi); ok {
 			for _, e := range phi.Edges {
-				if !stackOK(e, seen) {
+				if !stackOKOf(e, b, seen, depth) {
 					return false
 				}
 			}
 			return true
+		}
+		// a private helper that picks the stack from the buffer: each of its returns is nil or its buffer's stack
+		if hc, ok := v.(*ssa.Call); ok && depth < 3 {
+			if h, hb := bufferArg(hc, b); h != nil && hb != nil && h.Signature.Results().Len() == 1 {
+				n := 0
+				for _, blk := range h.Blocks {
+					if ret, ok := blk.Instrs[len(blk.Instrs)-1].(*ssa.Return); ok {
+						n++
+						if !stackOKOf(ret.Results[0], hb, map[ssa.Value]bool{}, depth+1) {
+							return false
+						}
+					}
+				}
+				return n > 0
+			}
+		}
+		return false
+	}
+	stackOK := func(v ssa.Value, seen map[ssa.Value]bool) bool { return stackOKOf(v, buf, seen, 0) }
+	// storedInto: the value v is stored into a field of the buffer b, here or in a private helper handed both
+	var storedInto func(v, b ssa.Value, depth int) bool
+	storedInto = func(v, b ssa.Value, depth int) bool {
+		for _, u := range *v.Referrers() {
+			switch u := u.(type) {
+			case *ssa.Store:
+				if fa, ok := u.Addr.(*ssa.FieldAddr); ok && fa.X == b && u.Val == v {
+					return true
+				}
+			case *ssa.Call:
+				if depth >= 3 {
+					continue
+				}
+				if h, hb := bufferArg(u, b); h != nil && hb != nil {
+					for i, a := range u.Call.Args {
+						if a == v && storedInto(h.Params[i], hb, depth+1) {
+							return true
+						}
+					}
+				}
+			}
 		}
 		return false
 	}
@@ -344,18 +420,49 @@ func (x *Ctx) singleCallWrapper(fn *ssa.Function, c *ssa.Call, buf *ssa.Paramete
 	if storeBack {
 		stored := false
 		for _, ref := range *c.Referrers() {
-			if ex, ok := ref.(*ssa.Extract); ok && isIntSlice(ex.Type()) {
-				for _, u := range *ex.Referrers() {
-					if st, ok := u.(*ssa.Store); ok {
-						if fa, ok := st.Addr.(*ssa.FieldAddr); ok && fa.X == ssa.Value(buf) {
-							stored = true
-						}
-					}
-				}
+			if ex, ok := ref.(*ssa.Extract); ok && isIntSlice(ex.Type()) && storedInto(ex, buf, 0) {
+				stored = true
 			}
 		}
 		if !stored {
 			return "the grown stack is not stored back into the buffer"
+		}
+	}
+	return ""
+}
+
+// delegatesTo: fn uses its buffer in exactly one place: as the buffer argument of a call of one of the named
+// wrappers, whose other arguments are fn's own parameters. Returns that wrapper's name.
+func (x *Ctx) delegatesTo(fn *ssa.Function, buf *ssa.Parameter, names []string) string {
+	refs := *buf.Referrers()
+	var call *ssa.Call
+	for _, ref := range refs {
+		switch u := ref.(type) {
+		case *ssa.DebugRef:
+		case *ssa.Call:
+			if call != nil {
+				return ""
+			}
+			call = u
+		default:
+			return ""
+		}
+	}
+	if call == nil {
+		return ""
+	}
+	callee := call.Call.StaticCallee()
+	if callee == nil {
+		return ""
+	}
+	for _, a := range call.Call.Args {
+		if _, ok := a.(*ssa.Parameter); !ok {
+			return ""
+		}
+	}
+	for _, n := range names {
+		if x.Func(n) == callee && callee != fn {
+			return n
 		}
 	}
 	return ""
